@@ -8,7 +8,13 @@
  PROV         cell provenance: map / apply compute the cell at p from the source cell(s) at the SAME p, all argument
               grids, apply returns the empty grid unless all sizes agree; resize takes the old cell where
               at_optional(grid,p) has one and _init(p) otherwise; fill writes function(element.pos()) into the element
-Declined: the row-major bijection (offset), next_position carry logic, end_position, range sizes, iteration
+ RANGE-G      range_dim(min, sup) is sup - min exactly under min_less_sup(min, sup) (the per-coordinate conjunction
+              checked above) and the null dimension otherwise: an inverted coordinate never reaches the unsigned
+              subtraction
+ STRIDE       every cell address is offset(pos, S) applied to the storage B of the SAME grid: grid::object uses its
+              own size_ with its own container_, pos_ref_iterator its own size_ with its own iterator_, and whoever
+              constructs a pos_ref_iterator passes X.begin() and X.size() of one and the same X
+Declined: the row-major bijection (offset's arithmetic), next_position carry logic, end_position, iteration
 order -- stride and carry arithmetic over run-time extents. grid::clamped_sup_signed's unguarded get_unsafe is
 C01's open known finding.
 """
@@ -16,6 +22,7 @@ from engine import facts as F
 from engine import load
 from engine import percoord as PC
 from engine import sx
+from engine import terms as T
 
 LEVEL = "other"
 G = "fcppt::container::grid::"
@@ -37,6 +44,8 @@ def main(rep, tier, only):
     rep.rule("OUT", "outer structure: conjunction over all coordinates / vector built from the per-coordinate values", floor=9)
     rep.rule("AT", "at_optional: some(ref(get_unsafe(pos))) of the same grid iff in_range(grid, pos); in_range = in_range_dim(size, pos)", floor=3)
     rep.rule("PROV", "cell provenance of map / apply / resize / fill", floor=5)
+    rep.rule("RANGE-G", "range_dim is sup - min exactly under min_less_sup(min, sup), the null dimension otherwise", floor=3)
+    rep.rule("STRIDE", "cell addresses are offset(pos, size) of the same grid whose storage they index", floor=3)
     for name, spec in SPECS.items():
         fns = db.fns(name)
         if not fns:
@@ -268,6 +277,80 @@ def main(rep, tier, only):
         except sx.Unsupported as e:
             why = "outside the interpreted fragment: %s" % e
         (rep.fail if why else rep.ok)("PROV", key, F.primary_site(fn), F.describe(fn)[:160], **({"why": why} if why else {"how": "element.value()=f(element.pos())"}))
+    # ---- RANGE-G
+    seen = set()
+    for fn in db.fns(G + "range_dim"):
+        k = PC.dims_of(fn)
+        if k in seen:
+            continue
+        seen.add(k)
+        key = "range_dim|N=%s" % k
+        why = None
+        try:
+            cfgr = sx.Config(inline_prefixes=(), pure_prefixes=("fcppt::",), loop_bound=1)
+            ps = sx.Interp(db, cfgr).paths(fn)
+            rows = {}
+            for p_ in ps:
+                if len(p_.decisions) != 1:
+                    why = "the result depends on %d conditions, expected exactly min_less_sup(_min, _sup)" % len(p_.decisions)
+                    break
+                atom, val = sx.show(p_.decisions[0][0]), p_.decisions[0][1]
+                if atom != "min_less_sup(_min, _sup)":
+                    why = "the subtraction is guarded by `%s`, not by min_less_sup(_min, _sup): a range that is inverted in one coordinate reaches the unsigned subtraction" % atom
+                    break
+                rows[val] = sx.show(p_.outcome[1])
+            if not why:
+                t, f_ = rows.get(True, ""), rows.get(False, "")
+                if not ("operator-(get(_sup), get(_min))" in t and t.startswith("to_dim(")):
+                    why = "the non-empty case is %s, expected to_dim(sup - min)" % t
+                elif not f_.startswith("null("):
+                    why = "the empty case is %s, expected the null dimension" % f_
+        except sx.Unsupported as e:
+            why = "outside the interpreted fragment: %s" % e
+        (rep.fail if why else rep.ok)("RANGE-G", key, F.primary_site(fn), F.describe(fn)[:160], **({"why": why} if why else {"how": "min_less_sup ? sup-min : null"}))
+    # ---- STRIDE
+    seen = set()
+    for fn in db.functions:
+        u = fn["_unit"]
+        name = F.fn_name(F.top_function(fn)) if hasattr(F, "top_function") else F.fn_name(fn)
+        if not name.startswith(G) or name == G + "offset" or not u.file_of(fn["primary"]).startswith("libs/"):
+            continue
+        for n in F.walk(fn.get("body"), into_lambdas=True):
+            if n.get("k") == "call" and T.callee_qn(u, n) == G + "offset" and len(n.get("args", [])) == 2:
+                site = u.loc(n.get("loc"))
+                key = "offset@%s" % name.replace(G, "")
+                if (key, F.primary_site(fn)) in seen:
+                    continue
+                seen.add((key, F.primary_site(fn)))
+                dim = T.show(T.norm(u, n["args"][1]))
+                # the storage the offset is applied to: enclosing subscript / pointer addition in the same function
+                base = None
+                for m in F.walk(fn.get("body"), into_lambdas=True):
+                    if m.get("k") == "subscript" and any(x is n for x in F.walk(m.get("idx"))):
+                        base = T.show(T.norm(u, m["base"]))
+                    if m.get("k") == "binop" and m.get("op") == "+" and any(x is n for x in F.walk(m.get("r"))):
+                        base = T.show(T.norm(u, m["l"]))
+                    if m.get("k") == "call" and m.get("opcall") in ("[]", "+") and m.get("recv") is not None and any(x is n for a in m.get("args", []) for x in F.walk(a)):
+                        base = T.show(T.norm(u, m["recv"]))
+                ok = dim == "size_" and base in ("container_", "iterator_")
+                (rep.ok if ok else rep.fail)("STRIDE", key, site, F.describe(fn)[:160],
+                                             **({"how": "%s[offset(., size_)]" % base} if ok else
+                                                {"why": "offset is computed with dimension `%s` and applied to `%s`; expected the object's own size_ with its own storage" % (dim, base)}))
+            if n.get("k") == "construct" and (n.get("cls") or "") == G + "pos_ref_iterator" and len(n.get("args", [])) == 3 and not name.startswith(G + "pos_ref_iterator"):
+                key = "pos_ref_iterator@%s" % name.replace(G, "")
+                if (key, F.primary_site(fn)) in seen:
+                    continue
+                seen.add((key, F.primary_site(fn)))
+                a0, a2 = T.norm(u, n["args"][0]), T.norm(u, n["args"][2])
+                while a2[0] == "new" and len(a2[2]) == 1:     # copy of the dimension object
+                    a2 = a2[2][0]
+                while a0[0] == "new" and len(a0[2]) == 1:
+                    a0 = a0[2][0]
+                ok = (a0[0] == "c" and str(a0[1]).endswith("::begin") and a2[0] == "c" and str(a2[1]).endswith("::size")
+                      and a0[2] is not None and a0[2] == a2[2])
+                (rep.ok if ok else rep.fail)("STRIDE", key, u.loc(n.get("loc")), F.describe(fn)[:160],
+                                             **({"how": "(X.begin(), ., X.size()) of the same X"} if ok else
+                                                {"why": "the iterator is built from storage `%s` and stride dimension `%s`: cells are addressed with the extents of something other than the grid that owns the storage" % (T.show(a0), T.show(a2))}))
     rep.extra["exhaustive_over_orders"] = True
     rep.explanation = ("Comparison clauses by abstract interpretation over weak orders with index coverage; at_optional / in_range by "
                        "decision table; cell provenance of map / apply / resize / fill by interpreting the per-position function with a "
